@@ -165,8 +165,8 @@ MODELLED_STATE = {
 _INTERIOR = re.compile(r"\b(Cell|RefCell|UnsafeCell|OnceCell|OnceLock|LazyCell|LazyLock|Lazy|Mutex|RwLock|Atomic\w+)\b|\*mut\b")
 
 def _non_test(text):
-    i = text.find("#[cfg(test)]")
-    return strip_comments(text if i < 0 else text[:i])
+    m = re.search(r"#\[cfg\(test\)\]\s*(?:pub\s+)?mod\b", text)      # the test module, not a #[cfg(test)] statement
+    return strip_comments(text if not m else text[:m.start()])
 
 def state_shape():
     """returns {"holders": [...], "unmodelled": [...], "gone": [...], "model_fields_missing": [...]}"""
@@ -201,6 +201,24 @@ def state_shape():
             "unmodelled": sorted(h for h in holders if h not in MODELLED_STATE),
             "gone": sorted(h for h in MODELLED_STATE if h not in holders),
             "model_fields_missing": sorted(v for v in MODELLED_STATE.values() if v not in fields)}
+
+# ---------------------------------------------------------------- length narrowing
+# The model computes lengths in unbounded N and wraps exactly where the code casts a length to a narrower integer
+# (today: the byte count `(self.len() - 4) as u8` and the vendor-set count `self.vendor_ids.len() as u8`). A new
+# narrowing cast of a length is a wrap the model does not have. Casts to u8 / u16 are within reach of the `wide`
+# strata (inputs and buffers around 2^8 and 2^16); a cast to u32 / i32 wraps at 4 GiB, which no run can feed.
+MODELLED_LEN_CASTS = {"u8": 2}
+
+def length_casts():
+    """returns {"found": {width: [expr, ...]}, "new": {width: n_more_than_modelled}, "unreachable": bool}"""
+    found = {}
+    for f in sorted(os.listdir(SRC)):
+        if not f.endswith(".rs"): continue
+        s = _non_test(open(os.path.join(SRC, f)).read())
+        for m in re.finditer(r"([^\n;{}=]*\.len\(\)[^\n;{}]*?)\bas\s+(u8|u16|u32|i8|i16|i32)\b", s):
+            found.setdefault(m.group(2), []).append("%s: %s as %s" % (f, " ".join(m.group(1).split())[-70:], m.group(2)))
+    new = {w: len(v) - MODELLED_LEN_CASTS.get(w, 0) for w, v in found.items() if len(v) > MODELLED_LEN_CASTS.get(w, 0)}
+    return {"found": found, "new": new, "unreachable": any(w in ("u32", "i32") for w in new)}
 
 def source_consts():
     """byte-array literals of /repo's current sources (test code included: test vectors are good seeds), 2..64 bytes"""
